@@ -267,6 +267,17 @@ def _shapes_compatible(a: Optional[ir.Value], b: Optional[ir.Value]) -> bool:
             continue
         if da != db:
             return False
+    # A symbolic dim only matches the same symbol: (B, 4) and (4, B) differ.
+    dims_a, dims_b = _shape_dims_seq(a.shape), _shape_dims_seq(b.shape)
+    if dims_a is None or dims_b is None:
+        return False
+    for da, db in zip(dims_a, dims_b):
+        a_int = isinstance(da, (int, np.integer))
+        b_int = isinstance(db, (int, np.integer))
+        if a_int != b_int:
+            return False
+        if not a_int and _dim_token(da) != _dim_token(db):
+            return False
     return True
 
 
